@@ -36,11 +36,11 @@ pub broadcast axiom fn axiom_path_key_model()
 impl Target {
 //@fn src/domain.rs Target::metadata ret=r
 //@contract
-    ensures *r == self.meta(),
+    ensures /*[C12.state]*/ *r == self.meta(),
 //@end
 //@fn src/domain.rs Target::output ret=r
 //@contract
-    ensures r == self.out(),
+    ensures /*[C12.frame]*/ r == self.out(),
 //@end
 //@fn src/domain.rs Target::input ret=r
 //@contract
